@@ -60,6 +60,11 @@ chk("C10","acpx","exploration",
     "trusted: the acp_core engine's decisions and its own in-memory store (not part of the explored device); identities fixed by an owned random stream; requests run under a hang guard; subscription results awaited with a 60 s liveness deadline whose expiry is a harness error.",
     "bounded-exhaustive enumeration of permission layouts, histories and requests on the implementation with a twin-database (non-interference) oracle", "§4 C10")
 
+chk("C11","encx","exploration",
+    "Every encryption configuration (encrypt: true; encryptFields = every non-empty subset of {s1, s2, n}; thorough adds a pncounter) x every subset of fields present at creation x every update history of <=2 steps (3 thorough) over {one field, two fields, set to null}, every written value a unique byte pattern (20-byte string markers, 8-byte integers): after every step every value under /db/blocks and every event.Update.Block is searched for every pattern written so far to an encrypted field, key bytes must occur under /db/enc only, the writer reads back exactly the written values; then every composite commit is delivered (real syncDAG + merge) to a receiver that answers the key request with nothing - its whole store must be free of the patterns - and to a receiver that is given the key blocks, which must read back the written values.",
+    "trusted: AES-GCM; a leak in a re-encoded form would not be seen; the key exchange is replaced by the harness answering encryption.RequestKeys events with the sender's /db/enc blocks or with nothing; writes go through the collection API (GraphQL Int literals are 32-bit).",
+    "bounded-exhaustive enumeration of configurations and update histories on the implementation with a byte-pattern search over every stored and published block", "§4 C11")
+
 ALL = [f"C{i:02d}" for i in range(1, 21)]
 NA_REASON = "check not built yet in this round (work in progress; see DESIGN.md §4 for the planned exhaustive check)"
 
@@ -76,6 +81,7 @@ def main():
        {"name":"qx","path":"harness/qx","serves_properties":["C07","C08","C17"],"kind_free_text":"bounded-exhaustive document-set and request generator, reference evaluator, twin databases"},
        {"name":"relx","path":"harness/checks/c09.go","serves_properties":["C09"],"kind_free_text":"relational data set/history/request enumerator with a foreign-key reference model, run on every index configuration"},
        {"name":"acpx","path":"harness/checks/c10.go","serves_properties":["C10"],"kind_free_text":"permission layout/history enumerator with a twin database that never held the unreadable documents"},
+       {"name":"encx","path":"harness/checks/c11.go","serves_properties":["C11"],"kind_free_text":"encryption configuration/history enumerator with a secret-pattern scanner over stores and update events, keyless and keyed receivers"},
        {"name":"txnx","path":"harness/checks/c06.go","serves_properties":["C06"],"kind_free_text":"interleaving enumerator for explicit transactions with a snapshot-isolation model"},
        {"name":"faultx","path":"harness/faultx","serves_properties":["C05"],"kind_free_text":"single-fault enumeration of every storage call of every operation"},
        {"name":"vkv","path":"harness/vkv","serves_properties":[],"kind_free_text":"snapshotable transactional store device; bound to badger by `vcheck CONFORM` (exhaustive differential run) in setup"},
